@@ -5,7 +5,7 @@ PROP = "C07"
 
 
 def run(tier):
-    QUICK_CFGS = lambda: vfsrun.cfgs([5], [0], range(8)) + vfsrun.cfgs([5], [3], [0, 3, 6]) + vfsrun.cfgs([1, 2, 8], [0], [0, 3, 6]) + vfsrun.cfgs([8], [2], [7])
+    QUICK_CFGS = lambda: vfsrun.cfgs([5], [0], range(8)) + vfsrun.cfgs([5], [3], [0, 3, 6]) + vfsrun.cfgs([1, 2, 8], [0], [0, 3, 6]) + vfsrun.cfgs([8], [2], [7]) + vfsrun.cfgs([5], [0, 3], [0, 6], shapes=(5,))
     extra = []
     if tier == "quick":
         cfgs = QUICK_CFGS()
